@@ -251,9 +251,14 @@ fn compare_bundle(e: Error, exp: &[Vec<u32>]) -> Result<(), String> {
 }
 
 /// Replays `hist` on a fresh real accumulator and model; Err = disagreement along the way.
+thread_local! {
+    /// Which public constructor the replay uses: `Error::accumulator()` or `Accumulator::default()`.
+    static DEFAULT_CTOR: std::cell::Cell<bool> = const { std::cell::Cell::new(false) };
+}
+
 pub fn replay(hist: &[Op]) -> (Ref, Option<Accumulator>, Result<(), String>) {
     let mut m = Ref::default();
-    let mut acc = Some(Error::accumulator());
+    let mut acc = Some(if DEFAULT_CTOR.with(|c| c.get()) { Accumulator::default() } else { Error::accumulator() });
     for (i, op) in hist.iter().enumerate() {
         if let Err(e) = m.step(&mut acc, *op) {
             // defuse before returning so the drop guard cannot fire in the harness
@@ -385,16 +390,35 @@ fn violation(hist: &[Op], term: Option<Term>, msg: String) -> Violation {
 
 /// All checks for one history (every terminal probe except drop-during-unwind).
 pub fn check_history(hist: &[Op], t: &mut Tally) {
-    for term in TERMS {
-        if term == Term::DropUnwinding {
+    // both public constructors give the same armed, empty accumulator (the second one for
+    // histories up to length 4)
+    for default_ctor in [false, true] {
+        if default_ctor && hist.len() > 4 {
             continue;
         }
-        t.evaluations += 1;
-        t.traces += 1;
-        match catch(std::panic::AssertUnwindSafe(|| probe(hist, term))) {
-            Ok(Ok(())) => {}
-            Ok(Err(m)) => t.violate(violation(hist, Some(term), m)),
-            Err(p) => t.violate(violation(hist, Some(term), format!("unexpected panic: {p}"))),
+        for term in TERMS {
+            if term == Term::DropUnwinding {
+                continue;
+            }
+            t.evaluations += 1;
+            t.traces += 1;
+            DEFAULT_CTOR.with(|c| c.set(default_ctor));
+            let r = catch(std::panic::AssertUnwindSafe(|| probe(hist, term)));
+            DEFAULT_CTOR.with(|c| c.set(false));
+            let tag = |m: String| if default_ctor { format!("starting from Accumulator::default(): {m}") } else { m };
+            match r {
+                Ok(Ok(())) => {}
+                Ok(Err(m)) => {
+                    let mut v = violation(hist, Some(term), tag(m));
+                    v.case["default_ctor"] = json!(default_ctor);
+                    t.violate(v)
+                }
+                Err(p) => {
+                    let mut v = violation(hist, Some(term), tag(format!("unexpected panic: {p}")));
+                    v.case["default_ctor"] = json!(default_ctor);
+                    t.violate(v)
+                }
+            }
         }
     }
 }
@@ -474,6 +498,7 @@ pub fn main(args: &Args) {
         let hist: Vec<Op> = serde_json::from_value(case["hist"].clone()).unwrap();
         let term: Option<Term> = serde_json::from_value(case["term"].clone()).unwrap();
         let terms: Vec<Term> = term.map(|t| vec![t]).unwrap_or_else(|| TERMS.to_vec());
+        DEFAULT_CTOR.with(|c| c.set(case["default_ctor"].as_bool().unwrap_or(false)));
         let mut bad = false;
         for t in terms {
             let unwinding = case["unwinding"].as_bool().unwrap_or(false) && t != Term::DropUnwinding;
